@@ -1,7 +1,7 @@
 (* C13  Text-selection relations have their documented algebraic meaning.
    Only statements: every theorem is closed by [exact] of a lemma of
    Proofs/Rel.v.  [ws] is the whitespace flag of every codepoint of the text. *)
-From Stam Require Import Base.Tac Model.Rel Spec.RelSpec Proofs.Rel Model.RelArms Gen.RelPairTable Proofs.AgreeRelPair Gen.RelTsSetTable Proofs.AgreeRelSet.
+From Stam Require Import Base.Tac Model.Rel Spec.RelSpec Proofs.Rel Model.RelArms Gen.RelPairTable Proofs.AgreeRelPair Gen.RelTsSetTable Proofs.AgreeRelSet Gen.RelSetTables Proofs.AgreeRelSets.
 
 (* model = documented meaning, pairs and sets, every operator and modifier *)
 Theorem C13_pair_spec : forall ws o s r, wf s -> wf r ->
@@ -193,3 +193,20 @@ Proof. exact ts_set_arms_agree. Qed.
 Theorem C13_code_ts_set_test_has_documented_meaning : forall ws o s B, wf s -> set_ok B ->
   interp_ts_set pair_arms ts_set_arms ws o s B = Some (spec_ts_set ws o s (items B)).
 Proof. intros ws o s B Hs HB. rewrite ts_set_arms_agree. f_equal. apply C13_ts_set_spec; assumption. Qed.
+
+(* ... and for the two tests of a set (`impl TestTextSelection for TextSelectionSet`, fn test and
+   fn test_set: the emptiness check, the all-loops over the members' own tests, the length check of
+   Equals, the delegation to the rightmost / leftmost member, the range comparison, the negation
+   arm; tools/translate_relsets.py).  With these four tables every arm of every relation test of
+   src/textselection.rs is read from the source on every run. *)
+Theorem C13_code_set_ts_test_is_the_model : forall ws o A r,
+  interp_set_ts pair_arms set_ts_arms ws o A r = Some (test_set_ts ws o A r).
+Proof. exact set_ts_arms_agree. Qed.
+
+Theorem C13_code_set_set_test_is_the_model : forall ws o A B,
+  interp_set_set pair_arms ts_set_arms set_set_arms ws o A B = Some (test_set_set ws o A B).
+Proof. exact set_set_arms_agree. Qed.
+
+Theorem C13_code_set_set_test_has_documented_meaning : forall ws o A B, set_ok A -> set_ok B ->
+  interp_set_set pair_arms ts_set_arms set_set_arms ws o A B = Some (spec_set_set ws o (items A) (items B)).
+Proof. intros ws o A B HA HB. rewrite set_set_arms_agree. f_equal. apply C13_set_set_spec; assumption. Qed.
